@@ -91,6 +91,8 @@ where
     #[inline]
     pub fn unchecked_read_ref_at<'a>(&self, index: usize, reader: &'a Reader) -> Option<&'a T> {
         let offset = (index * Self::SIZE_OF_T) + HEADER_OFFSET;
+        #[cfg(anydb_verif)]
+        crate::verif::access("zerocopy:read_ref", reader, offset, Self::SIZE_OF_T);
         let bytes = reader.prefixed(offset);
         T::ref_from_prefix(bytes).map(|(v, _)| v).ok()
     }
